@@ -429,6 +429,18 @@ func c14Run(c *Ctx) {
 		}, nil)
 	}
 	Flags{}.Apply()
+	// the same lines in other JSON spellings (matching names written with escapes, white space between tokens)
+	for _, fam := range c14Families[:2] {
+		oS := GenOpts{LeafSet: 2, MatchPool: append([]string{"pr\u00e9nom/ssn"}, fam.match...), NamePatterns: true, FieldNames: append(append([]string{}, fam.plain...), c14PlainNames...), OneGate: true, Spellings: true}
+		re := fam.re
+		if fam.re == c14Families[0].re {
+			re = `^(ssn|pii|pr\x{e9}nom/ssn)$`
+		}
+		sweep(c, []sweepLayer{{"spellings", oS, 0, []Flags{{Z: re}, {Z: re, N: true, B: true}}}}, func(sc *sweepCase) bool {
+			return !sc.C.Root.HasDup() && len(sc.C.Secrets) > 0
+		}, nil)
+	}
+	Flags{}.Apply()
 	c14Ladders(c)
 	c14Churn(c)
 	// line locality in selective mode: the verdict for a line must not depend on the lines before it.  All
